@@ -29,9 +29,20 @@ pub struct CelCompiler<'l> {
     // set when a unary minus directly precedes the literal 9223372036854775808,
     // the only int literal whose magnitude needs the sign to be in range
     negated_int_min: bool,
+
+    // current recursion depth (parentheses, brackets, unary runs, f-strings, ...)
+    nesting_depth: usize,
+    // binary operators seen so far; every one makes the tree one level deeper
+    chained_operators: usize,
 }
 
 const INT_MIN_MAGNITUDE: u64 = 1 << 63;
+
+// The parser is recursive and so are the consumers of the tree it builds.
+// Deeper or longer input is reported as a syntax error instead of exhausting
+// the stack. Both limits are generous for hand written expressions.
+const MAX_NESTING_DEPTH: usize = 32;
+const MAX_CHAINED_OPERATORS: usize = 4096;
 
 impl<'l> CelCompiler<'l> {
     pub fn with_tokenizer(tokenizer: &'l mut dyn Tokenizer) -> Self {
@@ -40,6 +51,8 @@ impl<'l> CelCompiler<'l> {
             bindings: BindContext::for_compile(),
             next_label: 0,
             negated_int_min: false,
+            nesting_depth: 0,
+            chained_operators: 0,
         }
     }
 
@@ -58,6 +71,36 @@ impl<'l> CelCompiler<'l> {
         Ok(prog)
     }
 
+    fn enter_nested(&mut self) -> CelResult<()> {
+        self.nesting_depth += 1;
+        if self.nesting_depth > MAX_NESTING_DEPTH {
+            return Err(SyntaxError::from_location(self.tokenizer.location())
+                .with_message(format!(
+                    "Expression is nested deeper than {} levels",
+                    MAX_NESTING_DEPTH
+                ))
+                .into());
+        }
+        Ok(())
+    }
+
+    fn leave_nested(&mut self) {
+        self.nesting_depth -= 1;
+    }
+
+    fn count_chained_operator(&mut self) -> CelResult<()> {
+        self.chained_operators += 1;
+        if self.chained_operators > MAX_CHAINED_OPERATORS {
+            return Err(SyntaxError::from_location(self.tokenizer.location())
+                .with_message(format!(
+                    "Expression has more than {} binary operators",
+                    MAX_CHAINED_OPERATORS
+                ))
+                .into());
+        }
+        Ok(())
+    }
+
     fn new_label(&mut self) -> u32 {
         let n = self.next_label;
         self.next_label += 1;
@@ -65,6 +108,13 @@ impl<'l> CelCompiler<'l> {
     }
 
     fn parse_expression(&mut self) -> CelResult<(CompiledProg, AstNode<Expr>)> {
+        self.enter_nested()?;
+        let res = self.parse_expression_nested();
+        self.leave_nested();
+        res
+    }
+
+    fn parse_expression_nested(&mut self) -> CelResult<(CompiledProg, AstNode<Expr>)> {
         if let Some(Token::Match) = self.tokenizer.peek()?.as_token() {
             self.tokenizer.next()?;
             self.parse_match_expression()
@@ -415,6 +465,7 @@ impl<'l> CelCompiler<'l> {
         loop {
             if let Some(Token::OrOr) = self.tokenizer.peek()?.as_token() {
                 self.tokenizer.next()?;
+                self.count_chained_operator()?;
                 let (rhs_node, rhs_ast) = self.parse_conditional_and()?;
 
                 let jmp_node = CompiledProg::with_code_points(vec![
@@ -460,6 +511,7 @@ impl<'l> CelCompiler<'l> {
         loop {
             if let Some(Token::AndAnd) = self.tokenizer.peek()?.as_token() {
                 self.tokenizer.next()?;
+                self.count_chained_operator()?;
                 let (rhs_node, rhs_ast) = self.parse_relation()?;
 
                 let jmp_node = CompiledProg::with_code_points(vec![
@@ -503,6 +555,7 @@ impl<'l> CelCompiler<'l> {
             match self.tokenizer.peek()?.as_token() {
                 Some(Token::LessThan) => {
                     self.tokenizer.next()?;
+                    self.count_chained_operator()?;
 
                     let (rhs_node, rhs_ast) = self.parse_addition()?;
                     let range = current_ast.range().surrounding(rhs_ast.range());
@@ -525,6 +578,7 @@ impl<'l> CelCompiler<'l> {
                 }
                 Some(Token::LessEqual) => {
                     self.tokenizer.next()?;
+                    self.count_chained_operator()?;
                     let (rhs_node, rhs_ast) = self.parse_addition()?;
                     let range = current_ast.range().surrounding(rhs_ast.range());
 
@@ -546,6 +600,7 @@ impl<'l> CelCompiler<'l> {
                 }
                 Some(Token::EqualEqual) => {
                     self.tokenizer.next()?;
+                    self.count_chained_operator()?;
                     let (rhs_node, rhs_ast) = self.parse_addition()?;
                     let range = current_ast.range().surrounding(rhs_ast.range());
 
@@ -567,6 +622,7 @@ impl<'l> CelCompiler<'l> {
                 }
                 Some(Token::NotEqual) => {
                     self.tokenizer.next()?;
+                    self.count_chained_operator()?;
                     let (rhs_node, rhs_ast) = self.parse_addition()?;
                     let range = current_ast.range().surrounding(rhs_ast.range());
 
@@ -588,6 +644,7 @@ impl<'l> CelCompiler<'l> {
                 }
                 Some(Token::GreaterEqual) => {
                     self.tokenizer.next()?;
+                    self.count_chained_operator()?;
                     let (rhs_node, rhs_ast) = self.parse_addition()?;
                     let range = current_ast.range().surrounding(rhs_ast.range());
 
@@ -609,6 +666,7 @@ impl<'l> CelCompiler<'l> {
                 }
                 Some(Token::GreaterThan) => {
                     self.tokenizer.next()?;
+                    self.count_chained_operator()?;
                     let (rhs_node, rhs_ast) = self.parse_addition()?;
                     let range = current_ast.range().surrounding(rhs_ast.range());
 
@@ -630,6 +688,7 @@ impl<'l> CelCompiler<'l> {
                 }
                 Some(Token::In) => {
                     self.tokenizer.next()?;
+                    self.count_chained_operator()?;
                     let (rhs_node, rhs_ast) = self.parse_addition()?;
                     let range = current_ast.range().surrounding(rhs_ast.range());
 
@@ -662,6 +721,7 @@ impl<'l> CelCompiler<'l> {
             match self.tokenizer.peek()?.as_token() {
                 Some(Token::Add) => {
                     self.tokenizer.next()?;
+                    self.count_chained_operator()?;
 
                     let (rhs_node, rhs_ast) = self.parse_multiplication()?;
                     let range = current_ast.range().surrounding(rhs_ast.range());
@@ -684,6 +744,7 @@ impl<'l> CelCompiler<'l> {
                 }
                 Some(Token::Minus) => {
                     self.tokenizer.next()?;
+                    self.count_chained_operator()?;
 
                     let (rhs_node, rhs_ast) = self.parse_multiplication()?;
                     let range = current_ast.range().surrounding(rhs_ast.range());
@@ -718,6 +779,7 @@ impl<'l> CelCompiler<'l> {
             match self.tokenizer.peek()?.as_token() {
                 Some(Token::Multiply) => {
                     self.tokenizer.next()?;
+                    self.count_chained_operator()?;
 
                     let (rhs_node, rhs_ast) = self.parse_unary()?;
                     let range = current_ast.range().surrounding(rhs_ast.range());
@@ -739,6 +801,7 @@ impl<'l> CelCompiler<'l> {
                 }
                 Some(Token::Divide) => {
                     self.tokenizer.next()?;
+                    self.count_chained_operator()?;
 
                     let (rhs_node, rhs_ast) = self.parse_unary()?;
                     let range = current_ast.range().surrounding(rhs_ast.range());
@@ -761,6 +824,7 @@ impl<'l> CelCompiler<'l> {
                 }
                 Some(Token::Mod) => {
                     self.tokenizer.next()?;
+                    self.count_chained_operator()?;
 
                     let (rhs_node, rhs_ast) = self.parse_unary()?;
                     let range = current_ast.range().surrounding(rhs_ast.range());
@@ -836,7 +900,9 @@ impl<'l> CelCompiler<'l> {
             }) => {
                 self.tokenizer.next()?;
 
+                self.enter_nested()?;
                 let (not_list, ast) = self.parse_not_list()?;
+                self.leave_nested();
                 let node = compile!([ByteCode::Not.into()], not_list, not_list);
 
                 let range = ast.range().surrounding(loc);
@@ -878,7 +944,9 @@ impl<'l> CelCompiler<'l> {
                     self.negated_int_min = true;
                 }
 
+                self.enter_nested()?;
                 let (neg_list, ast) = self.parse_neg_list()?;
+                self.leave_nested();
                 let node = if absorbed {
                     neg_list
                 } else {
@@ -1268,10 +1336,7 @@ impl<'l> CelCompiler<'l> {
 
                 Ok((
                     CompiledProg::with_const(val.into()),
-                    AstNode::new(
-                        Primary::Literal(LiteralsAndKeywords::IntegerLit(val)),
-                        loc,
-                    ),
+                    AstNode::new(Primary::Literal(LiteralsAndKeywords::IntegerLit(val)), loc),
                 ))
             }
             Some(TokenWithLoc {
@@ -1315,6 +1380,7 @@ impl<'l> CelCompiler<'l> {
                         FStringSegment::Expr(e) => {
                             let mut tok = StringTokenizer::with_input(&e);
                             let mut comp = CelCompiler::with_tokenizer(&mut tok);
+                            comp.nesting_depth = self.nesting_depth;
 
                             let (e, _) = comp.parse_expression()?;
 
